@@ -156,11 +156,13 @@ impl Run {
             known_hits.len(),
             self.machinery_errors.len()
         );
-        if !self.machinery_errors.is_empty() {
-            return 2;
-        }
+        // a violation with its replayable witness stands even if a self-check of the machinery failed as well (on a
+        // changed tree the latter is usually a consequence of the former); without a violation a failed self-check is
+        // a machinery exit, never a verdict
         if unlisted > 0 {
             1
+        } else if !self.machinery_errors.is_empty() {
+            2
         } else {
             0
         }
